@@ -411,47 +411,105 @@ func zlistOf(s string) []string {
 	return out
 }
 
-// runs the history; returns the Coq observation list and a readable transcript
-func runHistory(ops []op) (string, string) {
+type forkOp struct {
+	side bool // false: the original runtime, true: the copy made by Otto.Copy()
+	o    op
+}
+
+// one operation on one runtime: its result list, or a Go panic
+func runOp(vm *otto.Otto, src string) (res []string, panicTxt string) {
+	o := RunJS(vm, "LOG = []; "+src+"; LOG.join(',')")
+	switch cls := ErrClass(o); cls {
+	case 0:
+		return append([]string{"0"}, zlistOf(o.Val.String())...), ""
+	case 6:
+		return []string{"1"}, ""
+	case 9:
+		return nil, "Go panic: " + fmt.Sprint(o.Panic)
+	default:
+		return []string{fmt.Sprintf("%d", 20+cls)}, ""
+	}
+}
+
+// the snapshot of one runtime: numbers, readable text, whether a Go panic escaped
+func runSnap(vm *otto.Otto) (nums []string, txt string, panicked bool) {
+	s := RunJS(vm, "SNAP()")
+	switch cls := ErrClass(s); cls {
+	case 0:
+		return zlistOf(s.Val.String()), s.Val.String(), false
+	case 9:
+		return []string{"9"}, fmt.Sprintf("snapshot Go panic: %v", s.Panic), true
+	default:
+		return []string{fmt.Sprintf("%d", 30+cls)}, fmt.Sprintf("snapshot threw %v", s.Err), false
+	}
+}
+
+// runs the history (and, after vm.Copy(), its continuation on both runtimes); returns the Coq
+// observation list and a readable transcript
+func runHistory(ops []op, fork []forkOp) (string, string) {
 	vm := otto.New()
 	if o := RunJS(vm, prelude); o.Err != nil || o.Panic != nil {
 		panic(fmt.Sprintf("prelude: %v %v", o.Err, o.Panic))
 	}
 	var obs, txt, script []string
+	done := func() (string, string) {
+		return Clist(obs), strings.Join(script, "; ") + " => " + strings.Join(txt, " | ")
+	}
 	for _, op := range ops {
 		src := op.js()
-		o := RunJS(vm, "LOG = []; "+src+"; LOG.join(',')")
-		var res []string
-		switch cls := ErrClass(o); cls {
-		case 0:
-			res = append([]string{"0"}, zlistOf(o.Val.String())...)
-		case 6:
-			res = []string{"1"}
-		case 9:
-			obs = append(obs, "[9]")
-			txt = append(txt, "Go panic: "+fmt.Sprint(o.Panic))
-			script = append(script, src)
-			return Clist(obs), strings.Join(script, "; ") + " => " + strings.Join(txt, " | ")
-		default:
-			res = []string{fmt.Sprintf("%d", 20+cls)}
-		}
 		script = append(script, src)
-		s := RunJS(vm, "SNAP()")
-		switch cls := ErrClass(s); cls {
-		case 0:
-			snap := s.Val.String()
-			obs = append(obs, Clist(append(res, zlistOf(snap)...)))
-			txt = append(txt, fmt.Sprintf("%s:%s", strings.Join(res, ","), snap))
-		case 9:
-			obs = append(obs, Clist(append(res, "9")))
-			txt = append(txt, fmt.Sprintf("%s:snapshot Go panic: %v", strings.Join(res, ","), s.Panic))
-			return Clist(obs), strings.Join(script, "; ") + " => " + strings.Join(txt, " | ")
-		default:
-			obs = append(obs, Clist(append(res, fmt.Sprintf("%d", 30+cls))))
-			txt = append(txt, fmt.Sprintf("%s:snapshot threw %v", strings.Join(res, ","), s.Err))
+		res, ptxt := runOp(vm, src)
+		if ptxt != "" {
+			obs = append(obs, "[9]")
+			txt = append(txt, ptxt)
+			return done()
+		}
+		nums, stxt, panicked := runSnap(vm)
+		obs = append(obs, Clist(append(res, nums...)))
+		txt = append(txt, strings.Join(res, ",")+":"+stxt)
+		if panicked {
+			return done()
 		}
 	}
-	return Clist(obs), strings.Join(script, "; ") + " => " + strings.Join(txt, " | ")
+	if fork == nil {
+		return done()
+	}
+	var vm2 *otto.Otto
+	if c := Guard(func() (otto.Value, error) { vm2 = vm.Copy(); return otto.Value{}, nil }); c.Panic != nil || vm2 == nil {
+		obs = append(obs, "[9]")
+		script = append(script, "/* vm2 := vm.Copy() */")
+		txt = append(txt, fmt.Sprintf("Copy() Go panic: %v", c.Panic))
+		return done()
+	}
+	vms := []*otto.Otto{vm, vm2}
+	script = append(script, "/* vm2 := vm.Copy() */")
+	for _, f := range fork {
+		k, who := 0, "/* vm */ "
+		if f.side {
+			k, who = 1, "/* vm2 */ "
+		}
+		src := f.o.js()
+		script = append(script, who+src)
+		res, ptxt := runOp(vms[k], src)
+		if ptxt != "" {
+			obs = append(obs, "[9]")
+			txt = append(txt, ptxt)
+			return done()
+		}
+		na, ta, pa := runSnap(vm)
+		if pa {
+			obs = append(obs, Clist(append(res, na...)))
+			txt = append(txt, strings.Join(res, ",")+":vm "+ta)
+			return done()
+		}
+		nb, tb, pb := runSnap(vm2)
+		obs = append(obs, Clist(append(append(res, na...), nb...)))
+		txt = append(txt, strings.Join(res, ",")+":vm "+ta+" vm2 "+tb)
+		if pb {
+			return done()
+		}
+	}
+	return done()
 }
 
 // ---- generators ----
@@ -778,8 +836,53 @@ func bucketOf(ops []op) string {
 	}
 }
 
+// a history, a copy of the runtime, then different continuations on the two runtimes
+func (g *gen) emitFork(prefix []op, fork []forkOp, bucket string) {
+	obs, txt := runHistory(prefix, fork)
+	cq := make([]string, len(prefix))
+	for i, o := range prefix {
+		cq[i] = o.coq()
+	}
+	fq := make([]string, len(fork))
+	for i, f := range fork {
+		fq[i] = fmt.Sprintf("(%s, %s)", Cbool(f.side), f.o.coq())
+	}
+	g.env.Add(fmt.Sprintf("CFork %s %s %s", Clist(cq), Clist(fq), obs), txt, bucket, true)
+}
+
+// prefix: several names on the objects; continuation: deletions, additions, redefinitions,
+// freezes on either runtime (what one does must never show in the other)
+func (g *gen) forked() ([]op, []forkOp) {
+	var prefix []op
+	if g.intn(3) > 0 {
+		prefix = g.order()
+		if len(prefix) > 7 {
+			prefix = prefix[:7]
+		}
+	} else {
+		prefix = g.history(5)
+	}
+	n := 2 + g.intn(6)
+	hotO, hotN := g.intn(2), g.intn(4)
+	fork := make([]forkOp, n)
+	for i := range fork {
+		side := g.intn(2) == 0
+		var o op
+		switch g.intn(10) {
+		case 0, 1, 2:
+			o = op{kind: "delete", o: hotO, n: g.intn(4)}
+		case 3, 4:
+			o = op{kind: "put", o: hotO, n: g.intn(4), v: g.value()}
+		default:
+			o = g.randomOp(hotO, hotN)
+		}
+		fork[i] = forkOp{side, o}
+	}
+	return prefix, fork
+}
+
 func (g *gen) emit(ops []op, bucket string) {
-	obs, txt := runHistory(ops)
+	obs, txt := runHistory(ops, nil)
 	cq := make([]string, len(ops))
 	for i, o := range ops {
 		cq[i] = o.coq()
@@ -789,10 +892,16 @@ func (g *gen) emit(ops []op, bucket string) {
 
 func runC07(env *Env) {
 	env.Import = "Otto.C07.Corr"
-	env.Rule = "histories of defineProperty/defineProperties/create/put/delete/freeze/seal/preventExtensions/for-in-with-delete over 3 variables, 4 names and re-wired prototype links, descriptors from the full product (absent/true/false attributes, value, get/set absent/undefined/function/not callable, contradictory ones, truthy/falsy spellings, inherited fields); after every operation its result and a snapshot of every own descriptor, in, hasOwnProperty, propertyIsEnumerable, [[Get]], keys, getOwnPropertyNames, for-in, isExtensible/isSealed/isFrozen of the three variables; plus the two-step product stored shape x descriptor (sampled in quick, exhaustive in thorough), SameValue boundary pairs (NaN, +0, -0, ...) on non-writable properties, and insertion-order histories (3-4 names, deletions, re-insertions); assignments/deletions also spelled through a with statement, descriptors that are not objects, properties objects carrying inherited and non-enumerable entries; non-trivial = distinct history with at least two operations"
+	env.Rule = "histories of defineProperty/defineProperties/create/put/delete/freeze/seal/preventExtensions/for-in-with-delete over 3 variables, 4 names and re-wired prototype links, descriptors from the full product (absent/true/false attributes, value, get/set absent/undefined/function/not callable, contradictory ones, truthy/falsy spellings, inherited fields); after every operation its result and a snapshot of every own descriptor, in, hasOwnProperty, propertyIsEnumerable, [[Get]], keys, getOwnPropertyNames, for-in, isExtensible/isSealed/isFrozen of the three variables; plus the two-step product stored shape x descriptor (sampled in quick, exhaustive in thorough), SameValue boundary pairs (NaN, +0, -0, ...) on non-writable properties, insertion-order histories (3-4 names, deletions, re-insertions), and histories continued after Otto.Copy() with different operations on the original and on the copy, both observed after every operation; assignments/deletions also spelled through a with statement, descriptors that are not objects, properties objects carrying inherited and non-enumerable entries; non-trivial = distinct history with at least two operations"
 	g := &gen{env: env}
 	for _, h := range pinned() {
 		g.emit(h, "pinned")
+	}
+	{
+		num := func(z int) val { return val{4, z} }
+		pre := []op{{kind: "put", o: 0, n: 0, v: num(1)}, {kind: "put", o: 0, n: 1, v: num(2)}, {kind: "put", o: 0, n: 2, v: num(3)}}
+		g.emitFork(pre, []forkOp{{true, op{kind: "delete", o: 0, n: 0}}, {true, op{kind: "put", o: 0, n: 3, v: num(5)}},
+			{false, op{kind: "delete", o: 0, n: 1}}, {false, op{kind: "put", o: 0, n: 0, v: num(7)}}}, "runtime-copy")
 	}
 	sh, se := shapes(), seconds()
 	total := len(sh) * len(se) * 3
@@ -814,6 +923,10 @@ func runC07(env *Env) {
 			continue
 		case k < 10:
 			g.emit(g.order(), "insertion-order")
+			continue
+		case k < 13:
+			p, f := g.forked()
+			g.emitFork(p, f, "runtime-copy")
 			continue
 		}
 		h := g.history(maxLen)
